@@ -19,6 +19,7 @@ import sympy as sp
 
 from ..core import AnchorMissing, Check, FuncInfo, calls_in, dotted, kwarg, own_nodes, src
 from ..hydro import n
+from ..nf import Ctx, eqx, find, has, match
 from ..terms import Extractor, SUM, is_zero
 
 LEVEL = "other"
@@ -444,74 +445,110 @@ def rules(chk: Check) -> None:
                FIELD_INDEX_EXCEPTIONS.get(key2, "not a listed exception: singles out one field, breaking covariance under permutation of the fields"), key=key2)
     ft = S.func(f"{EOM}._toWallParams")
     chk.touch(ft.name)
-    txt = " ".join(n(s_) for s_ in own_nodes(ft.node) if isinstance(s_, (ast.Assign, ast.AnnAssign, ast.Return)))
-    ok = "np.concatenate((np.array([0.0]), wallArray[self.nbrFields:]))" in txt and "widths=wallArray[:self.nbrFields]" in txt
+    ct = Ctx(S, ft)
+    prm = [a_.arg for a_ in ft.node.args.args][1:]
+    rets = [r for r in own_nodes(ft.node) if isinstance(r, ast.Return)]
+    ok = False
+    if len(rets) == 1 and len(prm) == 1 and isinstance(rets[0].value, ast.Call) and eqx(rets[0].value.func, "WallParams"):
+        w, o = kwarg(rets[0].value, "widths", 0), kwarg(rets[0].value, "offsets", 1)
+        A = prm[0]
+        ok = eqx(w, f"{A}[:self.nbrFields]", ct) and (eqx(o, f"np.concatenate((np.array([0.0]), {A}[self.nbrFields:]))", ct)
+                                                      or eqx(o, f"np.concatenate(([0.0], {A}[self.nbrFields:]))", ct))
     chk.ob("R08.2", ft.where(), "_toWallParams: widths = first nbrFields entries, offsets = (0, remaining entries): inverse of the packing (gauge: first offset 0)",
            ok, key="EOM._toWallParams|wallArray")
     fi_ = S.func(f"{EOM}._intermediatePressureResults")
-    pk = [st for st in own_nodes(fi_.node) if isinstance(st, (ast.Assign, ast.AnnAssign)) and n(st.targets[0] if isinstance(st, ast.Assign) else st.target) == "wallArray"]
-    ok = len(pk) == 1 and n(pk[0].value).replace(" ", "") == "np.concatenate((wallParams.widths,wallParams.offsets[1:]))"
-    chk.ob("R08.2", fi_.where(), "the minimiser's parameter vector is (all widths, offsets[1:])", ok, key="packing")
-    bnd = {n(st.targets[0] if isinstance(st, ast.Assign) else st.target): n(st.value).replace(" ", "") for st in own_nodes(fi_.node)
-           if isinstance(st, (ast.Assign, ast.AnnAssign)) and n(st.targets[0] if isinstance(st, ast.Assign) else st.target) in ("lowerBounds", "upperBounds")}
-    ok = all(f"self.nbrFields*[self.wallThicknessBounds[{i}]/self.thermo.Tnucl],(self.nbrFields-1)*[self.wallOffsetBounds[{i}]]" in bnd.get(k, "")
-             for k, i in (("lowerBounds", 0), ("upperBounds", 1)))
-    chk.ob("R08.2", fi_.where(), "bounds are the same for every field: nbrFields width bounds followed by nbrFields-1 offset bounds", ok, str(bnd)[:200], key="bounds-uniform")
+    ci = Ctx(S, fi_)
+    mins = [c for c in calls_in(fi_.node, "minimize") if "optimize" in (dotted(c.func) or "")]
+    if len(mins) != 1:
+        raise AnchorMissing("_intermediatePressureResults: the scipy.optimize.minimize call of the action not found")
+    x0 = kwarg(mins[0], "x0", 1)
+    ok = eqx(x0, "np.concatenate((wallParams.widths, wallParams.offsets[1:]))", ci)
+    chk.ob("R08.2", fi_.where(), "the minimiser's parameter vector is (all widths, offsets[1:])", ok, n(x0) if x0 is not None else "", key="packing")
+    bd = kwarg(mins[0], "bounds")
+    bdr = ci.resolve(bd) if bd is not None else None
+    okb = False
+    shown = {}
+    if isinstance(bdr, ast.Call) and (dotted(bdr.func) or "").endswith("Bounds"):
+        lb, ub = kwarg(bdr, "lb", 0), kwarg(bdr, "ub", 1)
+        shown = {"lb": n(lb) if lb is not None else "", "ub": n(ub) if ub is not None else ""}
+        okb = all(b_ is not None and eqx(b_, f"np.concatenate((self.nbrFields * [self.wallThicknessBounds[{i}] / self.thermo.Tnucl], "
+                                         f"(self.nbrFields - 1) * [self.wallOffsetBounds[{i}]]))", ci) for b_, i in ((lb, 0), (ub, 1)))
+    chk.ob("R08.2", fi_.where(), "bounds are the same for every field: nbrFields width bounds followed by nbrFields-1 offset bounds", okb, str(shown)[:300], key="bounds-uniform")
     # ---- R08.3
-    cat = [c for c in calls_in(fi_.node, "concatenate") if "vevLowT" in n(c)]
-    ok = len(cat) == 1 and kwarg(cat[0], "axis") is not None and n(kwarg(cat[0], "axis")).endswith("overFieldPoints")
+    cat = [c for c in calls_in(fi_.node, "concatenate") if has(c, "vevLowT")]
+    ok = len(cat) == 1 and kwarg(cat[0], "axis", 1) is not None and (n(kwarg(cat[0], "axis", 1)).endswith("overFieldPoints") or eqx(kwarg(cat[0], "axis", 1), "0"))
     chk.ob("R08.3", fi_.where(), "profiles with end points are concatenated along the point axis", ok, key="concat-axis")
-    dv = [st for st in own_nodes(fi_.node) if isinstance(st, ast.Assign) and n(st.targets[0]) == "dVdz"]
+    # dV/dz: the coefficient array of the Polynomial that is integrated to give the pressure
+    polys = [c for c in calls_in(fi_.node, "Polynomial") if len(c.args) >= 1]
     ax = None
-    for c in (ast.walk(dv[0].value) if dv else []):
-        if isinstance(c, ast.Call) and (dotted(c.func) or "").endswith("sum"):
-            ax = kwarg(c, "axis", 1)
-    ok = ax is not None and (n(ax) == "1" or n(ax).endswith("overFieldTypes"))
+    for c0 in polys:
+        r0 = ci.resolve(c0.args[0], keep={"dVfull", "dPhidz", "dVdPhi", "dVout"})
+        for c in ast.walk(r0):
+            if isinstance(c, ast.Call) and (dotted(c.func) or "") == "np.sum" and ax is None:
+                ax = kwarg(c, "axis", 1)
+    ok = ax is not None and (eqx(ax, "1") or n(ax).endswith("overFieldTypes"))
     chk.ob("R08.3", fi_.where(), "dV/dz sums dV/dphi_i * dphi_i/dz over the field axis", ok, key="sum-axis")
-    zl = [st for st in own_nodes(fw.node) if isinstance(st, ast.Assign) and n(st.targets[0]) == "zL"]
-    forms = {n(st.value).replace(" ", "") for st in zl}
-    ok = forms == {"z/wallParams.widths", "z[:,None]/wallParams.widths[None,:]"}
-    chk.ob("R08.3", fw.where(), "wallProfile broadcasts positions along axis 0 and per-field widths along axis 1", ok, str(forms), key="broadcast")
+    cw = Ctx(S, fw)
+    forms = []
+    for c in ast.walk(fw.node):
+        if isinstance(c, ast.BinOp) and isinstance(c.op, ast.Div) and (eqx(c.right, "wallParams.widths", cw) or eqx(c.right, "wallParams.widths[None, :]", cw)):
+            forms.append(c)
+    ok = len(forms) == 2 and any(match(f_, "__z / wallParams.widths") for f_ in forms) and any(match(f_, "__z[:, None] / wallParams.widths[None, :]") for f_ in forms)
+    chk.ob("R08.3", fw.where(), "wallProfile broadcasts positions along axis 0 and per-field widths along axis 1", ok, str([n(f_) for f_ in forms]), key="broadcast")
     fc = S.func("effectivePotential:EffectivePotential.configureDerivatives")
     chk.touch(fc.name)
-    asserts = [n(a_.test).replace(" ", "") for a_ in own_nodes(fc.node) if isinstance(a_, ast.Assert)]
-    ok = any("fieldValueVariationScale.size==self.fieldCount" in a_ for a_ in asserts)
-    ones = any("np.ones(self.fieldCount)" in n(st) for st in own_nodes(fc.node) if isinstance(st, ast.Assign))
+    cc = Ctx(S, fc)
+    FS = "self.derivativeSettings.fieldValueVariationScale"
+    ok = any(eqx(a_.test, f"{FS}.size == self.fieldCount") or eqx(a_.test, f"len({FS}) == self.fieldCount") for a_ in own_nodes(fc.node) if isinstance(a_, ast.Assert))
+    ones = any(isinstance(st, ast.Assign) and eqx(st.targets[0], FS) and has(st.value, "np.ones(self.fieldCount)") for st in own_nodes(fc.node))
     chk.ob("R08.3", fc.where(), "per-field finite-difference scales: a scalar is broadcast to fieldCount entries, an array must have fieldCount entries", ok and ones,
            key="scales-length")
     fcomb = [st for st in own_nodes(fc.node) if isinstance(st, ast.Assign) and "combinedScales" in n(st.targets[0])]
-    ok = len(fcomb) == 1 and n(fcomb[0].value).replace(" ", "") == "np.append(self.derivativeSettings.fieldValueVariationScale,self.derivativeSettings.temperatureVariationScale)"
+    ok = len(fcomb) == 1 and eqx(fcomb[0].value, f"np.concatenate(({FS}, self.derivativeSettings.temperatureVariationScale))", cc)
     chk.ob("R08.3", fc.where(), "combined scales = (field scales..., temperature scale), the order of the combined (fields..., T) input", ok, key="scales-order")
     fcomb2 = S.func("effectivePotential:EffectivePotential.__combineInputs") if S.has_func("effectivePotential:EffectivePotential.__combineInputs") else None
     if fcomb2 is not None:
-        txt = " ".join(n(s_) for s_ in own_nodes(fcomb2.node) if isinstance(s_, ast.Assign)).replace(" ", "")
-        ok = "combinedInput[...,:-1]=fields" in txt and "combinedInput[...,-1]=temperature" in txt
+        sts = [s_ for s_ in own_nodes(fcomb2.node) if isinstance(s_, ast.Assign)]
+        ok = bool(find(sts, "__c[..., :-1] = fields")) and bool(find(sts, "__c[..., -1] = temperature"))
         chk.ob("R08.3", fcomb2.where(), "combined input puts the fields first and the temperature last", ok, key="combine-order")
     fd = S.func("effectivePotential:EffectivePotential.derivField")
-    ok = any("axis=np.arange(self.fieldCount).tolist()" in n(c).replace(" ", "") for c in calls_in(fd.node, "gradient"))
+    cdf = Ctx(S, fd)
+    ok = any(kwarg(c, "axis") is not None and (eqx(kwarg(c, "axis"), "np.arange(self.fieldCount).tolist()", cdf) or eqx(kwarg(c, "axis"), "list(range(self.fieldCount))", cdf))
+             for c in calls_in(fd.node, "gradient"))
     chk.ob("R08.3", fd.where(), "derivField takes the gradient along all field axes (0 .. fieldCount-1) of the combined input", ok, key="gradient-axes")
     # ---- R08.4
     fa = S.func(f"{EOM}.action")
     chk.touch(fa.name)
+    ca = Ctx(S, fa)
     K = None
-    for st in own_nodes(fa.node):
-        if isinstance(st, ast.Assign) and n(st.targets[0]) == "K":
-            K = Extractor(S).expr(st.value, {"__module__": "equationOfMotion", "__class__": "EOM", "wallWidths": sp.Symbol("wallParams.widths", real=True)})
+    # the kinetic term: the summand of the action that contains both phase locations
+    kin = [st for st in own_nodes(fa.node) if isinstance(st, ast.Assign) and has(st.value, "vevHighT") and has(st.value, "vevLowT")
+           and not any(True for _ in calls_in(st.value, "wallProfile"))]
+    for st in kin:
+        K = Extractor(S).expr(ca.resolve(st.value, keep={"vevHighT", "vevLowT"}), {"__module__": "equationOfMotion", "__class__": "EOM"})
     okk = None
-    if isinstance(K, sp.Basic):
+    if isinstance(K, sp.Basic) and len(kin) == 1:
         vLs, vHs = sp.Symbol("vevLowT", real=True), sp.Symbol("vevHighT", real=True)
         okk = sp.simplify(K.subs({vLs: vLs + sh, vHs: vHs + sh}, simultaneous=True) - K) == 0 and \
             sp.simplify(K.subs({vLs: -vLs, vHs: -vHs}, simultaneous=True) - K) == 0 and K.func == SUM
     chk.ob("R08.4", fa.where(), "kinetic term: a sum over fields of a function of (vevHighT - vevLowT)_i and width_i only, even under reflection", okk, str(K), key="kinetic")
     fu = S.func(f"{EOM}._updateGrid")
     chk.touch(fu.name)
+    cu = Ctx(S, fu)
     names = {x.id for x in ast.walk(fu.node) if isinstance(x, ast.Name)} | {x.attr for x in ast.walk(fu.node) if isinstance(x, ast.Attribute)}
     ok = not ({"vevLowT", "vevHighT", "fields"} & names)
-    red = [n(c) for c in own_nodes(fu.node) if isinstance(c, ast.Call) and (dotted(c.func) or "") in ("np.max", "np.min")]
-    ok = ok and len(red) == 4 and all("offsets) * widths" in r_ for r_ in red)
-    idx = [n(x) for x in own_nodes(fu.node) if isinstance(x, ast.Subscript) and n(x.value) in ("widths", "offsets")]
-    chk.ob("R08.4", fu.where(), "grid envelope: max / min over all fields of (+-1 - offset_i) * width_i -- no vev enters and no field is singled out", ok and not idx,
-           f"{red}; indexed: {idx}", key="envelope")
+    cp = [c for c in calls_in(fu.node, "changePositionFalloffScale")]
+    if len(cp) != 1 or len(cp[0].args) + len(cp[0].keywords) < 4:
+        raise AnchorMissing("_updateGrid: the changePositionFalloffScale call not found")
+    thick = kwarg(cp[0], "wallThickness", 2)
+    centre = kwarg(cp[0], "wallCenter", 3)
+    W, O = "wallParams.widths", "wallParams.offsets"
+    RIGHT, LEFT = f"np.max((1 - {O}) * {W})", f"np.min((-1 - {O}) * {W})"
+    ok_t = eqx(thick, f"({RIGHT} - {LEFT}) / 2", cu)
+    ok_c = eqx(centre, f"({RIGHT} + {LEFT}) / 2 - (({RIGHT} - {LEFT}) / 2) * np.log(2) / 2", cu)
+    idx = [n(x) for x in own_nodes(fu.node) if isinstance(x, ast.Subscript) and (has(x.value, W, cu) or has(x.value, O, cu))]
+    chk.ob("R08.4", fu.where(), "grid envelope: max / min over all fields of (+-1 - offset_i) * width_i -- no vev enters and no field is singled out", ok and ok_t and ok_c and not idx,
+           f"thickness {n(thick)}; centre {n(centre)}; indexed: {idx}", key="envelope")
     chk.floor("R08.1", 3)
     chk.floor("R08.2", 4)
     chk.floor("R08.3", 7)
